@@ -279,12 +279,13 @@ def reference(args, old):
             rs = [r for r in rs if ref_eval(tree, old['attrs'][id(r)])]
         vis[n] = rs
     named = list(args.attribute or [])
+    # "attribute names unknown to -a are reported as errors rather than ignored": also next to :all
+    for a in named:
+        if a != ':all' and a not in old['schema']:
+            return ('exit',)
     if ':all' in named:
         keep = list(old['schema'])
     else:
-        for a in named:
-            if a not in old['schema']:
-                return ('exit',)
         keep = [f for f in old['schema'] if f in named]
     return ('ok', vis, keep)
 
